@@ -24,6 +24,28 @@ class DictView(SV):
         self.typ = None
 
 
+def unknown_order_list(run, dv):
+    """list(d.values()) / list(d) of a dict whose insertion order is not known: a list of unknown length and order all of
+    whose elements are values (keys) of d - a sound over-approximation"""
+    sx = _sx()
+    d = dv.d
+    if dv.what == 'values':
+        et = d.typ.v
+    elif dv.what == 'keys':
+        et = d.typ.k
+    else:
+        raise sx.Unsupported("list of dict items")
+    lt = TList(et)
+    res = run.fresh(lt, 'dlist')
+    i = z3.Int(fresh_name('di'))
+    k = z3.Const(fresh_name('dk'), d.typ.k.sort())
+    el = res.arr[i]
+    hit = z3.And(d.dom[k], (d.val[k] == el) if dv.what == 'values' else (k == el))
+    run.assume(sym.forall([i], z3.Implies(z3.And(i >= 0, i < res.n), z3.Exists([k], hit)), [res.arr[i]]))
+    run.trusted.add('list(dict view) without a known insertion order: some arrangement of the entries')
+    return res
+
+
 class NDArray(SV):
     """1-d float ndarray model: a list plus the `nan` mask convention (entry is NaN iff nan[i])"""
 
@@ -110,7 +132,7 @@ def load_item(run, c, k):
         i = z3.simplify(z3.If(i < 0, i + c.d0, i))
         if z3.is_true(z3.simplify(c.ndim == 1)):
             return SNum(z3.simplify(c.data[i]), np=z3.BoolVal(True))
-        sh = z3.Const(fresh_name('row'), z3.ArraySort(z3.IntSort(), z3.RealSort()))
+        sh = run.fresh_const(z3.ArraySort(z3.IntSort(), z3.RealSort()), 'row')
         j = z3.Int(fresh_name('rj'))
         run.assume(sym.forall([j], sh[j] == c.data[i * c.d1 + j], [sh[j]]))
         # ndim 1 -> a 0-d element; ndim 2 -> the i-th row
@@ -177,7 +199,7 @@ def call_module(run, path, args, kwargs, node):
             return snapshot(v)
         raise sx.Unsupported("deepcopy of " + repr(v))
     if name == 'random.random':
-        u = z3.Real(fresh_name('u'))
+        u = run.fresh_const(z3.RealSort(), 'u')
         run.pc += [u >= 0, u < 1]
         run.events.append({'kind': 'draw', 'prim': 'random.random', 'value': u, 'line': run.cur_line})
         run.bump('random.random')
@@ -187,7 +209,7 @@ def call_module(run, path, args, kwargs, node):
             raise sx.Unsupported("randrange with other than one argument")
         n = args[0]
         run.may_raise(n.t <= 0, 'ValueError', 'randrange(n<=0)')
-        r = z3.Int(fresh_name('rr'))
+        r = run.fresh_const(z3.IntSort(), 'rr')
         run.pc += [r >= 0, r < n.t]
         run.events.append({'kind': 'draw', 'prim': 'random.randrange', 'arg': n.t, 'value': r, 'line': run.cur_line})
         run.bump('random.randrange')
@@ -195,7 +217,7 @@ def call_module(run, path, args, kwargs, node):
     if name == 'random.randint':
         a, b = args
         run.may_raise(a.t > b.t, 'ValueError', 'randint(a>b)')
-        r = z3.Int(fresh_name('ri'))
+        r = run.fresh_const(z3.IntSort(), 'ri')
         run.pc += [r >= a.t, r <= b.t]
         run.events.append({'kind': 'draw', 'prim': 'random.randint', 'arg': (a.t, b.t), 'value': r,
                            'line': run.cur_line})
@@ -207,14 +229,14 @@ def call_module(run, path, args, kwargs, node):
     if name == 'numpy.random.permutation':
         return np_permutation(run, args[0])
     if name == 'numpy.random.normal':
-        r = z3.Real(fresh_name('nrm'))
+        r = run.fresh_const(z3.RealSort(), 'nrm')
         run.events.append({'kind': 'draw', 'prim': 'np.random.normal', 'value': r, 'line': run.cur_line})
         run.bump('np.random.normal')
         return SNum(r)
     if name == 'numpy.mean':
         lst = args[0]
         if isinstance(lst, SList) and lst.typ.e in (TNum, TInt):
-            r = z3.Real(fresh_name('mean'))
+            r = run.fresh_const(z3.RealSort(), 'mean')
             run.pc.append(z3.Implies(lst.n > 0, r * z3.ToReal(lst.n) == lemmas.ssum(lst.arr, lst.n)))
             return SNum(r)
         raise sx.Unsupported("np.mean of " + repr(lst))
@@ -356,10 +378,22 @@ def i_key(i):
     return z3.Const('unused', sym.KeyS)
 
 
+RowT = TList(TVal)
+MatT = TList(RowT)
+
+
 def np_array(run, x):
     sx = _sx()
     if isinstance(x, SOutArr):
         return x
+    if isinstance(x, DictView) and x.what == 'values' and x.d.typ.v is TVal:
+        x = unknown_order_list(run, x)
+    if isinstance(x, SList) and x.typ.e is TVal:
+        a = SList(x.typ, x.get())
+        a.is_1d_array = True          # a 1-d object array of feature values
+        return a
+    if isinstance(x, SList) and x.typ == MatT:
+        return SList(MatT, x.get())   # a 2-d array: the list of its rows
     if isinstance(x, SList) and x.typ.e in (TNum,):
         nan = getattr(x, 'nan_mask', None)
         if nan is None:
@@ -402,6 +436,9 @@ def call_builtin(run, name, args, kwargs, node):
             return SNum(0)
         if isinstance(x, DictView):
             return call_builtin(run, 'len', [x.d], {}, node)
+        if isinstance(x, SOutArr):
+            run.may_raise(x.ndim == 0, 'TypeError', 'len() of unsized object')
+            return SNum(x.d0)
         if isinstance(x, SObj):
             key = run.resolve_method(x.cls, '__len__')
             if key:
@@ -440,7 +477,7 @@ def call_builtin(run, name, args, kwargs, node):
         a = args[0]
         if isinstance(a, SKey):
             return SKey(STR_OF(a.t))
-        return SKey(z3.Const(fresh_name('str'), sym.KeyS))
+        return SKey(run.fresh_const(sym.KeyS, 'str'))
     if name == 'set':
         if not args:
             return sx.PyEmptySet() if hasattr(sx, 'PyEmptySet') else _empty_set(run)
@@ -453,6 +490,20 @@ def call_builtin(run, name, args, kwargs, node):
             return SList(x.typ, x.get())
         if isinstance(x, sx.PyList):
             return sx.PyList(x.items)
+        if isinstance(x, DictView) and x.what == 'values' and getattr(x.d, 'order', None) is not None:
+            # a dict built by a comprehension over a sequence keeps that order (insertion order), provided the keys
+            # are pairwise distinct - which is an obligation here
+            n, index, kt, vt, vtyp = x.d.order
+            i2 = z3.Int(fresh_name('oj'))
+            run.oblige(f"{run.fspec.key}/ordered_dict_keys_distinct@{run.cur_line}",
+                       sym.forall([index, i2], z3.Implies(z3.And(index >= 0, index < i2, i2 < n),
+                                                          kt != z3.substitute(kt, (index, i2)))),
+                       kind='call_pre', clause='ordered_dict_keys_distinct', function=run.fspec.key)
+            lt = TList(vtyp)
+            res = run.fresh(lt, 'ovals')
+            run.assume(res.n == n, sym.forall([index], z3.Implies(z3.And(index >= 0, index < n), res.arr[index] == vt), [res.arr[index]]))
+            run.trusted.add('library contract: dicts preserve insertion order')
+            return res
         if isinstance(x, DictView):
             return x
         if isinstance(x, SDict):
@@ -470,6 +521,12 @@ def call_builtin(run, name, args, kwargs, node):
             raise sx.Unsupported("range with a step")
         n = z3.If(hi >= lo, hi - lo, 0)
         return sx.Iter('seq', n=z3.simplify(n), at=lambda i: SNum(z3.simplify(lo + i)))
+    if name == 'reversed' and len(args) == 1 and isinstance(args[0], SList):
+        x = args[0]
+        res = run.fresh(x.typ, 'rev')
+        i = z3.Int(fresh_name('ri'))
+        run.assume(res.n == x.n, sym.forall([i], z3.Implies(z3.And(i >= 0, i < x.n), res.arr[i] == x.arr[x.n - 1 - i]), [res.arr[i]]))
+        return res
     if name == 'zip':
         its = [run.to_iter(a) for a in args]
         if any(it.kind != 'seq' for it in its):
@@ -594,9 +651,9 @@ def do_extremum(run, name, x):
         d = x.d
         ks = d.typ.k.sort()
         k = z3.Const(fresh_name('mk'), ks)
-        w = z3.Const(fresh_name('mw'), ks)
+        w = run.fresh_const(ks, 'mw')
         run.may_raise(z3.Not(z3.Exists([k], d.dom[k])), 'ValueError', name + ' of an empty collection')
-        m = z3.Real(fresh_name(name))
+        m = run.fresh_const(z3.RealSort(), name)
         cmp = (lambda a, b: a <= b) if name == 'max' else (lambda a, b: a >= b)
         valk = _real_of(d, k)
         run.pc += [d.dom[w], _real_of(d, w) == m,
@@ -607,9 +664,9 @@ def do_extremum(run, name, x):
         return SNum(m)
     if isinstance(x, SList) and x.typ.e in (TNum, TInt):
         i = z3.Int(fresh_name('mi'))
-        w = z3.Int(fresh_name('mw'))
+        w = run.fresh_const(z3.IntSort(), 'mw')
         run.may_raise(x.n <= 0, 'ValueError', name + ' of an empty sequence')
-        m = z3.Real(fresh_name(name))
+        m = run.fresh_const(z3.RealSort(), name)
         cmp = (lambda a, b: a <= b) if name == 'max' else (lambda a, b: a >= b)
         run.pc += [w >= 0, w < x.n, x.arr[w] == m,
                    sym.forall([i], z3.Implies(z3.And(i >= 0, i < x.n), cmp(x.arr[i], m)), [x.arr[i]])]
@@ -659,6 +716,7 @@ def call_method(run, recv, name, args, kwargs, node):
         dt = recv.typ
         if name in ('values', 'keys', 'items'):
             snap = SDict(dt, recv.get())
+            snap.order = getattr(recv, 'order', None)
             if name == 'keys':
                 return DictView(snap, 'keys')
             if name == 'values':
@@ -713,9 +771,18 @@ def call_method(run, recv, name, args, kwargs, node):
             return NONE
         if name == 'copy':
             return SSet(st, recv.get())
+    if isinstance(recv, SList) and name == 'reshape' and getattr(recv, 'is_1d_array', False):
+        # arr.reshape(1, -1) of a 1-d array: one row
+        if len(args) == 2 and all(isinstance(a, SNum) for a in args) and z3.is_true(z3.simplify(args[0].t == 1)) \
+                and z3.is_true(z3.simplify(args[1].t == -1)):
+            m = MatT.empty()
+            return SList(MatT, MatT.mk(z3.IntVal(1), z3.Store(MatT.arr(m), 0, recv.get())))
+        raise sx.Unsupported("reshape other than (1, -1)")
     if isinstance(recv, SList):
         lt = recv.typ
         if name == 'append':
+            if isinstance(args[0], DictView):
+                args = [unknown_order_list(run, args[0])] + list(args[1:])
             v = pack(args[0], lt.e)
             n = recv.n
             mir = getattr(recv, 'mirror', None)
@@ -775,6 +842,9 @@ InstT = TDict(TKey, TVal)
 PredT = TDict(TKey, TNum)
 MODEL = z3.Function('M', sym.FnS, InstT.sort(), PredT.sort())
 LOSS = z3.Function('L', sym.FnS, sym.ValS, PredT.sort(), z3.RealSort())
+
+
+PREDICT = z3.Function('PF', sym.FnS, MatT.sort(), TOutArr.sort())      # an sklearn-style prediction function on a 2-d array
 
 
 def model_apply(fn_term, inst_term):
@@ -842,6 +912,14 @@ def call_callback(run, f, args, kwargs, node):
             run.trusted.add('assumption: the model applied to a list returns the list of its single-instance outputs')
             return res
         raise sx.Unsupported("model called with " + repr(x))
+    if role == 'predict':
+        if kwargs or len(args) != 1 or not (isinstance(args[0], SList) and args[0].typ == MatT):
+            raise sx.Unsupported("prediction function called with other than one 2-d array")
+        r = PREDICT(f.t, args[0].get())
+        run.events.append({'kind': 'predict', 'x': args[0].get(), 'value': r, 'line': run.cur_line})
+        run.bump('model')
+        run.assume(*TOutArr.wf(r))
+        return SOutArr(TOutArr, r)
     hook = run.opts.extra.get('callback')
     if hook:
         return hook(run, f, role, args, kwargs)
